@@ -22,8 +22,8 @@ Empty == [scen |-> "", engine |-> "", srcs |-> {}, feats |-> {}, maxRetries |-> 
           status |-> 0, statusT |-> 0, live |-> <<>>, stored |-> <<>>,
           startCalls |-> 0,       \* Start calls issued
           startOpen |-> FALSE,    \* a Start call is in flight
-          sinceStart |-> [stopOk |-> FALSE, stopAll |-> FALSE, force |-> FALSE, opens |-> 0, recOpens |-> 0,
-                          degraded |-> FALSE],
+          sinceStart |-> [stopOk |-> FALSE, stopAll |-> FALSE, force |-> FALSE, forceOk |-> FALSE,
+                          recAfterForce |-> 0, opens |-> 0, recOpens |-> 0, degraded |-> FALSE],
           stopArmed |-> FALSE,    \* a stop call was issued while the pipeline was reported running, with a live
                                   \* run and no start in flight, and nothing has happened to the run since
           recPending |-> FALSE,   \* status Recovering was written and the recovery restart has not opened the source yet
@@ -34,7 +34,8 @@ V(inv, what) == [inv |-> inv, at |-> Ev.n, scen |-> st.scen, what |-> what]
 Add(cond, inv, what) == IF cond THEN {} ELSE {V(inv, what)}
 Get(f, k) == IF k \in DOMAIN f THEN f[k] ELSE 0
 Put(f, k, v) == IF k \in DOMAIN f THEN [f EXCEPT ![k] = v] ELSE f @@ (k :> v)
-Fresh == [stopOk |-> FALSE, stopAll |-> FALSE, force |-> FALSE, opens |-> 0, recOpens |-> 0, degraded |-> FALSE]
+Fresh == [stopOk |-> FALSE, stopAll |-> FALSE, force |-> FALSE, forceOk |-> FALSE, recAfterForce |-> 0,
+          opens |-> 0, recOpens |-> 0, degraded |-> FALSE]
 
 Reset ==
   /\ IsEvent("Reset")
@@ -66,6 +67,7 @@ Ret ==
          notRunning == ~nil /\ "sentinel" \in DOMAIN Ev.err /\ Ev.err.sentinel = "ErrPipelineNotRunning" IN
      /\ st' = IF Ev.call = "Start" THEN [st EXCEPT !.startOpen = FALSE]
               ELSE IF Ev.call \in {"Stop", "StopAndWait"} /\ nil THEN [st EXCEPT !.sinceStart.stopOk = TRUE]
+              ELSE IF Ev.call = "ForceStop" /\ nil THEN [st EXCEPT !.sinceStart.forceOk = TRUE]
               ELSE st
      /\ viol' = viol
           \* C11: while the pipeline is reported running (and nothing is starting or failing) a stop
@@ -106,7 +108,8 @@ Open ==
             /\ st' = [st EXCEPT !.live = Put(@, Ev.conn, Get(@, Ev.conn) + 1),
                                 !.recPending = FALSE,
                                 !.sinceStart.opens = @ + 1,
-                                !.sinceStart.recOpens = IF recovery THEN @ + 1 ELSE @]
+                                !.sinceStart.recOpens = IF recovery THEN @ + 1 ELSE @,
+                                !.sinceStart.recAfterForce = IF recovery /\ st.sinceStart.forceOk THEN @ + 1 ELSE @]
             /\ viol' = viol
                  \cup Add(Get(st.live, Ev.conn) = 0, "OneLiveRun", Ev.conn)
                  \* C10: never restarted automatically after a fatal failure / a stop / shutdown
@@ -159,9 +162,10 @@ End ==
        \cup (IF "expect-exhausted" \in st.feats /\ ~st.restartCheck
                THEN Add(Ev.status = "Degraded", "TransientRecovers", <<"not degraded after exhausted retries", Ev.status>>)
                ELSE {})
-       \cup (IF "expect-forcestop" \in st.feats /\ ~st.restartCheck
+       \* C12: an accepted force stop marks the pipeline failed-by-force-stop, without automatic restart
+       \cup (IF st.sinceStart.forceOk /\ ~st.restartCheck
                THEN Add(Ev.status = "Degraded", "ForceIsFatalNoRestart", Ev.status)
-                    \cup Add(st.sinceStart.recOpens = 0, "ForceIsFatalNoRestart", "restarted")
+                    \cup Add(st.sinceStart.recAfterForce = 0, "ForceIsFatalNoRestart", "restarted after the force stop")
                ELSE {})
 
 Hang  == IsEvent("Hang")  /\ viol' = viol \cup {V("NoHang", Ev.call)} /\ UNCHANGED st
